@@ -76,6 +76,11 @@ FAMILIES = [
     ('r_paren', BS + 'r¶(§)‡', [M('r', G('(', ')', CH(H(1))))]),
     ('q_angle', BS + 'q¶<§>‡', [M('q', G('<', '>', CH(H(1))))]),
     ('q_absent', BS + 'q‡', [M('q', None)]),
+    ('h_darg_after_space', BS + 'h{§}¶<§>‡', [M('h', G('{', '}', CH(H(0))), G('<', '>', CH(H(2))))]),
+    ('h_darg_absent', BS + 'h{§}¶§', [M('h', G('{', '}', CH(H(0))), None), CH(H(2))]),
+    ('v_nested', BS + 'v{§{§}§}‡', [M('v', G('{', '}', CH(H(0), '{', H(1), '}', H(2))))]),
+    ('v_nested_paren', BS + 'v(§(§))‡', [M('v', G('(', ')', CH(H(0), '(', H(1), ')')))]),
+    ('quote_single', "§'§`§", [CH(H(0)), SP("'"), CH(H(1)), SP('`'), CH(H(2))]),
     ('v_bar', BS + 'v|§' + BS + '{|‡', [M('v', G('|', '|', CH(H(0), BS, '{')))]),
     ('v_brace', BS + 'v{§%$}‡', [M('v', G('{', '}', CH(H(0), '%$')))]),
     ('nl_full', BS + BS + '*[§]‡', [M(BS, CH('*'), G('[', ']', CH(H(0))))]),
